@@ -9,6 +9,7 @@ import (
 	"math"
 	"sort"
 	"strings"
+	"sync"
 
 	"golang.org/x/tools/go/ssa"
 )
@@ -35,6 +36,17 @@ func init() {
 		"vYield":    hYield,
 		"vThorough": func(m *machine, fr *frame, args []value) value { return m.w.thorough },
 		"vWriter":   hWriter,
+		"vMatches": func(m *machine, fr *frame, args []value) value {
+			pat := concreteStr(args[1], "vMatches pattern")
+			d := dualFor(pat)
+			switch s := args[0].(type) {
+			case string:
+				return d.re.MatchString(s)
+			case *Term:
+				return fromTerm(mkInRe(s, d.smt))
+			}
+			panic("vMatches")
+		},
 		"vBound": func(m *machine, fr *frame, args []value) value {
 			switch concreteStr(args[0], "vBound name") {
 			case "runes":
@@ -469,4 +481,20 @@ func (m *machine) callOpaqueMethod(fr *frame, om *opaqueMethod, args []value) va
 		panic(cut{"direct Write call on a recorded writer"})
 	}
 	return m.callOpaqueMethodExt(fr, om, args)
+}
+
+var (
+	dualMu    sync.Mutex
+	dualCache = map[string]*dualRe{}
+)
+
+func dualFor(pat string) *dualRe {
+	dualMu.Lock()
+	defer dualMu.Unlock()
+	if d, ok := dualCache[pat]; ok {
+		return d
+	}
+	d := newDual(pat)
+	dualCache[pat] = d
+	return d
 }
